@@ -98,6 +98,10 @@ type c17 struct {
 	idx   int64
 	macNo int
 	rx    *rxBuf
+	// mDNS duplicate suppression: what was sent to the current handler
+	lastMDNSMAC refdec.MAC
+	lastMDNSID  uint16
+	mdnsSeen    map[string]bool
 }
 
 func (t *c17) fresh() {
@@ -110,6 +114,7 @@ func (t *c17) fresh() {
 	}
 	t.h = dns_naming.VerifNew(t.s)
 	t.n = 0
+	t.lastMDNSMAC, t.mdnsSeen = refdec.MAC{}, nil
 }
 
 func (t *c17) frame(sp, dp uint16, payload []byte, mac refdec.MAC) (packet.Frame, []byte, error) {
@@ -348,7 +353,21 @@ func (t *c17) mdnsCase(r *rand.Rand) {
 		host = strings.Trim(host, ".")
 	}
 	owner := host + ".local"
-	m := refdec.NewDNSMsg(uint16(t.idx), 0x8400)
+	// the handler suppresses a repeated (station, transaction id) for some minutes; every other message must be decoded. A
+	// third of the messages come from the station of the previous one, with the byte-swapped id or the next one
+	id := uint16(t.idx)
+	reuse := t.lastMDNSMAC != (refdec.MAC{}) && r.Intn(3) == 0
+	if reuse {
+		id = t.lastMDNSID<<8 | t.lastMDNSID>>8
+		if t.mdnsSeen[string(t.lastMDNSMAC[:])+string([]byte{byte(id >> 8), byte(id)})] {
+			id = t.lastMDNSID + 1
+		}
+		if t.mdnsSeen[string(t.lastMDNSMAC[:])+string([]byte{byte(id >> 8), byte(id)})] {
+			reuse = false
+			id = uint16(t.idx)
+		}
+	}
+	m := refdec.NewDNSMsg(id, 0x8400)
 	type rec struct {
 		name string
 		ip   netip.Addr
@@ -395,6 +414,15 @@ func (t *c17) mdnsCase(r *rand.Rand) {
 	}
 	t.macNo++
 	mac := refdec.MAC{0x02, 0xbb, byte(t.macNo >> 24), byte(t.macNo >> 16), byte(t.macNo >> 8), byte(t.macNo)}
+	if reuse {
+		mac = t.lastMDNSMAC
+		c.Obs("mdns_same_station_other_id", 1)
+	}
+	if t.mdnsSeen == nil {
+		t.mdnsSeen = map[string]bool{}
+	}
+	t.mdnsSeen[string(mac[:])+string([]byte{byte(id >> 8), byte(id)})] = true
+	t.lastMDNSMAC, t.lastMDNSID = mac, id
 	cs := func() any {
 		return map[string]any{"index": t.idx, "message_hex": wk.Hex(wire), "compressed": compress, "owner": owner}
 	}
